@@ -132,6 +132,7 @@ type Machine struct {
 	fmtOpaque   int
 	timerRace   bool
 	fixedClock  bool
+	horizonNs   int64
 	preemptOff  bool
 	clockTick   uint64
 	posCount    map[string]int
